@@ -46,7 +46,7 @@ def run(tier):
     # 3. real constants, boundary sets: every model transition replayed in the real class
     phases = [0, 999, 1000, 64535, 64536, 65535]
     cfg = os.path.join(work, 'SystemClock_real.cfg')
-    clocks.sc_cfg(cfg, 65536, 1000, [1, 999, 1000, 1001, 64535, 64536, 64537, 65536], 4 if tier == 'quick' else 5, False, phases, [0, 5000, 5001], dump=True)
+    clocks.sc_cfg(cfg, 65536, 1000, [1, 999, 1000, 1001, 64535, 64536, 64537, 65536], 4 if tier == 'quick' else 5, False, phases, [0, 5000, 5001, 70536], dump=True)      # (the last value is 2^16 seconds after another one)
     r = common.run_tlc('SystemClock', cfg, workers=1, timeout=2400)
     common.tlc_must_pass(r, 'SystemClock real constants')
     edges = [e for e in common.tlc_prints(r.out) if isinstance(e, dict) and 'op' in e]
@@ -61,7 +61,8 @@ def run(tier):
     nsteps += b
     # the same graph with the clock set through setup() (value taken from the backup clock) and through forceSync() (value
     # taken from a reference clock): both are documented to set the clock like setNow()
-    for via in ('U', 'F'):
+    # ... and through syncNow() itself, which loop() / runCoroutine() call when a response has arrived
+    for via in ('U', 'F', 'Y'):
         a, b = clocks.sc_replay_edges(chk, exe, edges, phases, setvia=via)
         nscripts += a
         nsteps += b
